@@ -1,8 +1,11 @@
-(* C14 — diagnostics name the right file and line (parser side: spans and line numbers).
+(* C14 — diagnostics name the right file and line (spans and line numbers of the parser; the
+   path and ParsedContext the composed loader hands to the callback; where run_files places a
+   book-keeping error and a syntax error).
    Offsets are byte offsets into the UTF-8 text; utf8_len is the byte length of a list of
    Unicode scalar values; count_lf counts U+000A characters, count_nl counts bytes 10. *)
 From Coq Require Import List NArith.
-From Okv Require Import Model.Comb Model.ParseLedger Proofs.ParseLines.
+From Okv Require Import Model.Comb Model.ParseLedger Proofs.ParseLines
+  Model.Syntax Model.Load Model.Named Model.Lower Model.Convert Model.Pipeline Model.PipelineSpec Proofs.PipelineProofs.
 Import ListNotations.
 Open Scope N_scope.
 
@@ -44,3 +47,52 @@ Theorem C14_parse_error_lines : forall s es e, parse_ledger s = LErr es e ->
     1 + count_nl (firstn (N.to_nat (pe_text_start e + fst (pe_span e))) (utf8_encode s)).
 Proof. exact parse_error_lines. Qed.
 Print Assumptions C14_parse_error_lines.
+
+(* ---------- the composed loader (Model/Pipeline.v) ---------- *)
+
+(* Every entry the loader on a file system of texts hands to the callback - also before a
+   failure, at any include depth, through literal and glob includes - carries the path of the
+   file whose text contains it: that path is a file of the file system, the entry is the
+   l_index-th entry the parser yields on THAT file's text (and never the include line itself:
+   C11_include_never_delivered carried over), its span is exactly a slice [mid] of that text and
+   its line_start is 1 + the line feeds before the slice (C14_line_start in that file).  So the
+   file and line a diagnostic built from (path, ParsedContext) names is the containing file and
+   the first line of the entry; lines inside the entry follow by C14_spans_inside. *)
+Theorem C14_path_is_containing_file : forall fuel fs root l,
+  In l (fst (load_texts fuel fs root)) ->
+  exists text pre mid post,
+    tlookup (l_path l) fs = Some text /\
+    nth_error (result_entries (parse_ledger text)) (N.to_nat (l_index l)) = Some (l_parsed l) /\
+    is_include (e_entry (l_parsed l)) = false /\
+    text = pre ++ mid ++ post /\
+    e_span (l_parsed l) = (utf8_len pre, utf8_len pre + utf8_len mid) /\
+    e_line_start (l_parsed l) = 1 + count_lf pre.
+Proof. exact path_is_containing_file. Qed.
+Print Assumptions C14_path_is_containing_file.
+
+(* When run_files fails with a book-keeping error, the reported path, entry span and line are
+   those of the i-th delivered entry, where i is the first entry in load order whose booking
+   fails: booking the first i delivered entries succeeds, booking one more fails with exactly
+   that error; and that entry is placed as above (`placed` is the conclusion of
+   C14_path_is_containing_file). *)
+Theorem C14_bookkeeping_error_entry : forall lfuel qfuel choose o fs root p sp ln e i,
+  run_files lfuel qfuel choose o fs root = FrProcessError p sp ln e i ->
+  let out := fst (load_texts lfuel fs root) in
+  exists l, nth_error out i = Some l /\
+    p = l_path l /\ sp = e_span (l_parsed l) /\ ln = e_line_start (l_parsed l) /\
+    (exists st, book_entries (firstn i (loaded_entries out)) = (NOk st, i)) /\
+    book_entries (firstn (S i) (loaded_entries out)) = (NErr e, i) /\
+    placed fs l.
+Proof. exact bookkeeping_error_entry. Qed.
+Print Assumptions C14_bookkeeping_error_entry.
+
+(* When run_files fails with a syntax error, the reported path is the file whose text has that
+   error (so C14_parse_error_lines speaks about that file's text), the load stopped there, and
+   every entry delivered before it was booked without error. *)
+Theorem C14_parse_error_file : forall lfuel qfuel choose o fs root p e,
+  run_files lfuel qfuel choose o fs root = FrParseError p e ->
+  (exists text es, tlookup p fs = Some text /\ parse_ledger text = LErr es e) /\
+  snd (load_texts lfuel fs root) = TParse p e /\
+  exists st n, book_entries (loaded_entries (fst (load_texts lfuel fs root))) = (NOk st, n).
+Proof. exact parse_error_file. Qed.
+Print Assumptions C14_parse_error_file.
